@@ -6,6 +6,8 @@ CONSTANTS
   Emit = TRUE
 INVARIANT InvStrRoundTripModuloKnown
 INVARIANT InvDeviationsAreReal
+INVARIANT InvJsonStrModuloKnown
+INVARIANT InvJsonStrDeviationsReal
 INVARIANT InvOnlyFloatDiffers
 INVARIANT InvTimestampSafe
 INVARIANT InvIntRoundTrip
